@@ -4,6 +4,7 @@
 -/
 import Tabmodel.Model.World
 import Tabmodel.Proofs.Length
+import Tabmodel.Proofs.Clusters
 namespace Tab
 
 /-- splitting into lines loses nothing but the line breaks and at most one trailing newline -/
@@ -52,6 +53,19 @@ theorem c18_longest_runes_le_bytes (s : Bytes) : longestLine runeCount s ≤ lon
   · omega
   · rw [h]
     exact Nat.le_trans (c18_runes_le_bytes l) ((c18_longest_bound List.length s).1 l hl)
+
+/-- display cells never exceed twice the runes, for EVERY width measure of go-runewidth's shape:
+    the line is cut into clusters of one or more whole runes (`cr s ≥ 1` runes in the first cluster
+    of `s`) and each cluster contributes at most 2 cells (`cw s ≤ 2`: the width of one of its runes).
+    That go-runewidth has this shape (RuneWidth ≤ 2, one width per grapheme cluster) is the assumption;
+    the oracle checks `cells ≤ 2·runes` on every generated line. -/
+theorem c18_cells_le_2runes (cr cw : Bytes → Nat) (hcr : ∀ s, 1 ≤ cr s) (hcw : ∀ s, cw s ≤ 2)
+    (fuel : Nat) (l : Bytes) : clusterWidth cr cw fuel l ≤ 2 * runeCount l :=
+  clusterWidth_le cr cw hcr hcw fuel l
+
+/- non-vacuity: one rune per cluster, CJK lead bytes (E3..E9) are wide -/
+example : clusterWidth (fun _ => 1) (fun s => match s with | b :: _ => if 0xE3 ≤ b && b ≤ 0xE9 then 2 else 1 | [] => 0)
+    10 [0xe4, 0xb8, 0x96, 0x41] = 3 := by decide
 
 /-- an item that overrides neither size and is not a nested cell -/
 def PlainItem (it : Item) : Prop :=
